@@ -1480,17 +1480,20 @@ def _g4(ctx: Context) -> None:
             # taken on every path to the send, and not given back in between
             held = cfg.find_path(cfg.entry.id, s.id, avoid_edges=acq_edges) is None and not any(
                 r in cfg.reachable_from(a.id) and s.id in cfg.reachable_from(r) for a in acquires for r in rel_ids)
+            # once taken it is given back on EVERY way out - from the moment acquire() returned, not only from the send on
+            # (a `not connected` test between acquire() and the try block leaks the slot on that path)
             leak = None
-            for d, lab, exc in s.succ:
-                if d in rel_ids:
-                    continue
-                leak = leak or cfg.find_path(d, {cfg.exit.id, cfg.xexit.id}, avoid_nodes=rel_ids)
+            for a_ in acquires:
+                for e_ in ctx.normal_out(cfg, a_):
+                    if e_[1] in rel_ids:
+                        continue
+                    leak = leak or cfg.find_path(e_[1], {cfg.exit.id, cfg.xexit.id}, avoid_nodes=rel_ids)
             ck.check(
                 "C08.G4",
                 held and leak is None,
                 "request(): the send lies between `await self._concurrency_limit.acquire()` and a `release()` that every way out passes",
                 f"{ctx.fkey(f)}:send-outside-semaphore",
-                "request(): the semaphore is " + ("not held at the send" if not held else "not released on every way out of the send: later requests hang"),
+                "request(): the semaphore is " + ("not held at the send" if not held else "not released on every way out once it was taken: later requests hang"),
                 ctx.loc(f, s),
                 cfg.render_path(leak) if leak else None,
             )
